@@ -31,10 +31,15 @@ inductive Op
   | cancel (c : Nat)                     -- `Context::cancel`
   | getSigner (c : Nat) (init : Nat)     -- `OnceLock::get_or_init`: first caller's value wins
   | getResolver (c : Nat) (init : Nat)
+  | getSignerS (c : Nat)                 -- `Context::signer()`: `get_or_init(|| … self.settings.signer …)`
+  | getResolverS (c : Nat)               -- `Context::resolver()`: `get_or_init(|| self.build_default_sync_resolver())`
   | readSettings (c : Nat)               -- reads the context's own settings
   | buildSettings (t : Nat) (v : Nat)    -- `Settings::new().with_json(..)` etc. on thread t: pure
   | readTls (t : Nat)                    -- legacy API reading the thread-local settings
-  | setTls (t : Nat) (v : Nat)           -- legacy `load_settings_from_str` on thread t
+  | setTls (t : Nat) (v : Nat)           -- legacy `Settings::from_string` / `from_toml` / `from_file` on thread t
+  | leakyRead (t : Nat)                  -- context-based read of a BMFF asset with an update manifest on thread t:
+                                         -- `BmffIO::read_cai` → `Store::from_jumbf` takes its decompression cap from
+                                         -- the THREAD-LOCAL settings, not from the context (defect, see Props/C24)
   deriving DecidableEq, Repr
 
 inductive Out
@@ -58,6 +63,16 @@ def onTls (s : Sys) (t : Nat) (f : Nat → Nat × Out) : Sys × Out :=
 
 def getOrInit (cell : Option Nat) (init : Nat) : Nat := cell.getD init
 
+/-- What the code's own initialiser closures compute: a function of the context's settings only
+(`Context::signer`: `self.settings.signer` / `cawg_x509_signer`; `Context::resolver`:
+`self.settings.core.allowed_network_hosts` / `allow_redirects`). Settings are abstract numbers, so
+the identity stands for "the signer / resolver configured by these settings". -/
+def initOf (settings : Nat) : Nat := settings
+
+/-- The thread-local decompression cap lets the stores of the probe asset through iff it is not 0;
+the harness encodes the cap in the parity of the thread-local value (even ↦ cap 0). -/
+def capAllows (v : Nat) : Bool := v % 2 == 1
+
 def step (s : Sys) : Op → Sys × Out
   | .checkProgress c => onCtx s c (fun x => (x, .flag x.cancel))
   | .cancel c => onCtx s c (fun x => ({ x with cancel := true }, .unit))
@@ -65,19 +80,27 @@ def step (s : Sys) : Op → Sys × Out
     onCtx s c (fun x => ({ x with signer := some (getOrInit x.signer init) }, .val (getOrInit x.signer init)))
   | .getResolver c init =>
     onCtx s c (fun x => ({ x with resolver := some (getOrInit x.resolver init) }, .val (getOrInit x.resolver init)))
+  | .getSignerS c =>
+    onCtx s c (fun x => ({ x with signer := some (getOrInit x.signer (initOf x.settings)) },
+      .val (getOrInit x.signer (initOf x.settings))))
+  | .getResolverS c =>
+    onCtx s c (fun x => ({ x with resolver := some (getOrInit x.resolver (initOf x.settings)) },
+      .val (getOrInit x.resolver (initOf x.settings))))
   | .readSettings c => onCtx s c (fun x => (x, .val x.settings))
   | .buildSettings _ v => (s, .val v)
   | .readTls t => onTls s t (fun v => (v, .val v))
   | .setTls t v => onTls s t (fun _ => (v, .unit))
+  | .leakyRead t => onTls s t (fun v => (v, .flag (capAllows v)))
 
 /-- The cell an operation touches: a context id or a thread id (or nothing). -/
 inductive Cell | ctx (c : Nat) | thread (t : Nat) | none
   deriving DecidableEq, Repr
 
 def Op.cell : Op → Cell
-  | .checkProgress c | .cancel c | .getSigner c _ | .getResolver c _ | .readSettings c => .ctx c
+  | .checkProgress c | .cancel c | .getSigner c _ | .getResolver c _ | .readSettings c
+  | .getSignerS c | .getResolverS c => .ctx c
   | .buildSettings _ _ => .none
-  | .readTls t | .setTls t _ => .thread t
+  | .readTls t | .setTls t _ | .leakyRead t => .thread t
 
 /-- Two operations are independent when they touch different cells (or one touches none). -/
 def indep (a b : Op) : Bool :=
@@ -87,6 +110,18 @@ def indep (a b : Op) : Bool :=
   | .ctx x, .ctx y => x != y
   | .thread x, .thread y => x != y
   | _, _ => true
+
+/-- Operations that may run on a *shared* cell from several threads without any ordering: reads,
+checkpoints and the lazily initialised cells whose initialiser is the code's own (a function of the
+context's settings). `cancel`, the legacy thread-local setter and cells initialised with a
+caller-chosen value are not. -/
+def sharedSafe : Op → Bool
+  | .checkProgress _ | .readSettings _ | .getSignerS _ | .getResolverS _ | .buildSettings _ _
+  | .readTls _ | .leakyRead _ => true
+  | _ => false
+
+/-- Two operations may be reordered: different cells, or both safe on a shared cell. -/
+def compat (a b : Op) : Bool := indep a b || (sharedSafe a && sharedSafe b)
 
 /-- Run a program (list of ops), collecting outputs. -/
 def runProg : Sys → List Op → Sys × List Out
@@ -111,6 +146,45 @@ def runSched : Sys → List Op → List Op → List Bool → Sys × List Out × 
     let (s'', o1, o2) := runSched s' (a :: p) q sch
     (s'', o1, o :: o2)
 
+/-! ### n threads -/
+
+/-- Sequential reference: program 0 to completion, then program 1, … -/
+def runSeq : Sys → List (List Op) → Sys × List (List Out)
+  | s, [] => (s, [])
+  | s, p :: ps =>
+    let r := runProg s p
+    let r' := runSeq r.1 ps
+    (r'.1, r.2 :: r'.2)
+
+/-- Remove the next operation of program `i` (if that program exists and is not finished). -/
+def popAt : List (List Op) → Nat → Option (Op × List (List Op))
+  | [], _ => none
+  | [] :: _, 0 => none
+  | (o :: p) :: ps, 0 => some (o, p :: ps)
+  | p :: ps, i + 1 =>
+    match popAt ps i with
+    | some (o, ps') => some (o, p :: ps')
+    | none => none
+
+/-- Prepend an output to the output list of program `i`. -/
+def consAt : List (List Out) → Nat → Out → List (List Out)
+  | [], _, _ => []
+  | l :: ls, 0, o => (o :: l) :: ls
+  | l :: ls, i + 1, o => l :: consAt ls i o
+
+/-- A schedule of n programs (threads): each entry names the thread that takes its next step
+(entries naming a finished / non-existent thread are skipped); when the schedule is exhausted
+the remaining operations run program by program. Outputs are collected per program. -/
+def runSchedN : Sys → List (List Op) → List Nat → Sys × List (List Out)
+  | s, ps, [] => runSeq s ps
+  | s, ps, i :: sch =>
+    match popAt ps i with
+    | none => runSchedN s ps sch
+    | some (o, ps') =>
+      let r := step s o
+      let r' := runSchedN r.1 ps' sch
+      (r'.1, consAt r'.2 i r.2)
+
 /-! ### shared-state inventory kinds (rows of Gen/C24SharedState.lean) -/
 inductive Kind
   | const            -- immutable static data
@@ -122,7 +196,8 @@ inductive Kind
 
 /-! ### line protocol
 `sched p=<ops> q=<ops> s=<0/1 string> nctx=<n> nthr=<n>` → outputs of p | outputs of q
-op syntax: cp:c ca:c gs:c:v gr:c:v rs:c bs:t:v rt:t st:t:v, separated by `,` -/
+`schedn ps=<ops>/<ops>/… s=<i.i.i…> nctx=<n> nthr=<n>` → outputs of program 0 | program 1 | …
+op syntax: cp:c ca:c gs:c:v gr:c:v gss:c grs:c rs:c bs:t:v rt:t st:t:v lr:t, separated by `,` -/
 
 def parseOp (s : String) : Option Op :=
   match s.splitOn ":" with
@@ -130,6 +205,9 @@ def parseOp (s : String) : Option Op :=
   | ["ca", c] => c.toNat?.map .cancel
   | ["gs", c, v] => do pure (.getSigner (← c.toNat?) (← v.toNat?))
   | ["gr", c, v] => do pure (.getResolver (← c.toNat?) (← v.toNat?))
+  | ["gss", c] => c.toNat?.map .getSignerS
+  | ["grs", c] => c.toNat?.map .getResolverS
+  | ["lr", t] => t.toNat?.map .leakyRead
   | ["rs", c] => c.toNat?.map .readSettings
   | ["bs", t, v] => do pure (.buildSettings (← t.toNat?) (← v.toNat?))
   | ["rt", t] => t.toNat?.map .readTls
@@ -153,6 +231,14 @@ def handle (toks : List String) : String :=
     | some nc, some nt =>
       let (_, o1, o2) := runSched (initSys nc nt) p q sch
       ",".intercalate (o1.map outStr) ++ "|" ++ ",".intercalate (o2.map outStr)
+    | _, _ => "bad-req"
+  | "schedn" :: rest =>
+    let ps := (splitList (field rest "ps") "/").map (fun p => (splitList (if p == "-" then "" else p) ",").filterMap parseOp)
+    let sch := (splitList (if field rest "s" == "-" then "" else field rest "s") ".").filterMap String.toNat?
+    match (field rest "nctx").toNat?, (field rest "nthr").toNat? with
+    | some nc, some nt =>
+      let (_, outs) := runSchedN (initSys nc nt) ps sch
+      "|".intercalate (outs.map (fun o => ",".intercalate (o.map outStr)))
     | _, _ => "bad-req"
   | _ => "bad-op"
 
